@@ -1292,8 +1292,11 @@ C08_THEOREMS = ["Y.Props.C08_equiv", "Y.AD.astep_refines", "Y.AD.arun_refines",
                 "Y.Props.goParserGlobal_mono", "Y.Props.goParserObject_mono",
                 # the TypeScript driver text, translated on every run (Gen/TsDriver.lean), refines the array driver model
                 "C08c.step_ts_eq", "C08c.parser_ts_run", "C08c.parser_ts_eq", "C08c.parser_ts_init", "C08c.push_ts_eq", "C08c.pop_ts_eq",
-                "C08c.init_ts_eq", "C08c.load_ts_eq", "C08c.parser_ts_second", "C08c.parser_ts_reinit", "C08c.stackRel_unique", "C08c.stackRel_total"]
-C08_MODULES = ["Yv.Props.C08", "Yv.Props.C08b", "Yv.Props.EndToEnd", "Yv.Props.EndToEndTerm", "Yv.Props.C08c"]
+                "C08c.init_ts_eq", "C08c.load_ts_eq", "C08c.parser_ts_second", "C08c.parser_ts_reinit", "C08c.stackRel_unique", "C08c.stackRel_total",
+                # end to end for the TypeScript text on the dense table of the modelled pipeline
+                "Y.Props.C01_end_to_end_ts", "Y.Props.C02_end_to_end_ts", "Y.Props.C06_end_to_end_ts", "Y.Props.C06_end_to_end_terminates_ts",
+                "Y.Props.C06_end_to_end_decides_ts", "Y.Props.C15_ts_second_call", "Y.Props.C15_ts_reinit", "Y.Props.C15_ts_reinit_decides", "Y.Props.tsParser_mono"]
+C08_MODULES = ["Yv.Props.C08", "Yv.Props.C08b", "Yv.Props.EndToEnd", "Yv.Props.EndToEndTerm", "Yv.Props.C08c", "Yv.Props.EndToEndTs"]
 C08_LEVEL = "proof"
 
 
@@ -2246,12 +2249,15 @@ def check_C10(tier):
         d = digest_front(rec[c["id"]]["impl"])
         ties += front_stage_ties(c["id"], rec[c["id"]], c["src"])
         if c["id"].endswith(":min"):
-            base_refusal[i] = d["refuse"] if d["refuse"] in ("unproductive", "norule", "undefined") else None
+            # is the specification itself an unusable grammar (C12)?  decided from the abstract spec, not from the wording of
+            # the refusal: then every layout must be refused too (for which reason is C12's business, and a tie there)
+            base_refusal[i] = c12_expected(specs[i]) if (d["refuse"] and d["refuse"] != "syntax" and not d["ast_err"]) else None
             if base_refusal[i]:
                 refused_specs += 1
         if base_refusal.get(i):
-            # the specification itself is an unusable grammar (C12): every layout must be refused the same way
-            why = None if d["refuse"] == base_refusal[i] else "layout changes the verdict: %s vs %s" % (d["refuse"], base_refusal[i])
+            refused_now = bool(d["refuse"]) and d["refuse"] != "syntax" and not d["ast_err"] and not d["hang"]
+            why = None if refused_now else "layout changes the verdict: the unusable grammar (%s) is %s in this layout" % (
+                base_refusal[i], "processed" if not (d["refuse"] or d["ast_err"] or d["hang"]) else "not read (syntax error / no verdict)")
         else:
             why = compare_front(d, exp)
         if why:
